@@ -66,6 +66,7 @@ type Exec struct {
 	inlined       map[string]bool
 	forceContract map[string]bool
 	notes         map[string]bool
+	visited       map[*ssa.BasicBlock]bool // blocks of the unit's own function some path entered
 	deepSite      bool
 	curCallee     string // full name of the callee a "site call" assertion is being evaluated at
 	curSelect     *ssa.Select // the select statement a "site select" assertion is being evaluated at
@@ -383,6 +384,12 @@ func (x *Exec) enterBlock(st *State, fr *Frame, to *ssa.BasicBlock) {
 
 func (x *Exec) step(st *State) {
 	fr := st.top()
+	if len(st.frames) == 1 && fr.ip == 0 {
+		if x.visited == nil {
+			x.visited = map[*ssa.BasicBlock]bool{}
+		}
+		x.visited[fr.block] = true
+	}
 	if fr.ip >= len(fr.block.Instrs) {
 		x.unsupported(st, "fell off block")
 		return
